@@ -375,9 +375,20 @@ class Exec:
         if s.store_log is not None: s.store_log.append((ptr[0], off, sz))
         if isinstance(off, int):
             for k in list(o['cells']):
-                if k != off and k < off + sz and off < k + o['cells'][k][1]:
-                    if o['cells'][k][0] is ZERO and False: pass
-                    del o['cells'][k]       # overlapping older cell is overwritten (partially): drop it; a later load of it is an error
+                ck = o['cells'].get(k)
+                if ck is None: continue
+                if (k != off or ck[1] != sz) and k < off + sz and off < k + ck[1]:
+                    v0 = ck[0]
+                    if not isinstance(v0, (tuple, float)) and v0 is not ZERO and not (z3.is_expr(v0) and z3.is_real(v0)) and ck[1] <= 16:
+                        # partially overwritten integer cell: keep its other bytes (split into byte cells first)
+                        del o['cells'][k]
+                        for j in range(ck[1]):
+                            if off <= k + j < off + sz: continue
+                            if isinstance(v0, (int, bool)) and not z3.is_expr(v0): bj = (int(v0) >> (8 * j)) & 0xff
+                            else: bj = z3.simplify(z3.Extract(8 * j + 7, 8 * j, s.bv(v0, 8 * ck[1])))
+                            o['cells'][k + j] = (bj, 1)
+                    else:
+                        del o['cells'][k]       # overlapping older non-integer cell is dropped; a later load of it is an error
             o['cells'][off] = (v, sz)
         else:
             cands = [k for k, c in o['cells'].items() if c[1] == sz]
@@ -417,10 +428,37 @@ class Exec:
             if c is None:
                 for (lo, hi) in o['zero']:
                     if lo <= off and off + sz <= hi: return s.dflt(ZERO, ty)
+                if isinstance(ty, IntT):
+                    # load from the middle of a wider integer cell
+                    for k0, c0 in o['cells'].items():
+                        if k0 < off and off + sz <= k0 + c0[1] and not isinstance(c0[0], (tuple, float)) and c0[0] is not ZERO and not (z3.is_expr(c0[0]) and z3.is_real(c0[0])):
+                            sh_ = 8 * (off - k0)
+                            if isinstance(c0[0], (int, bool)) and not z3.is_expr(c0[0]): return (int(c0[0]) >> sh_) & ((1 << ty.bits) - 1)
+                            return z3.simplify(z3.Extract(sh_ + ty.bits - 1, sh_, s.bv(c0[0], 8 * c0[1])))
                 raise Unsupported('load of uninitialised/untracked memory obj %d off %d (%r)' % (ptr[0], off, ty))
             if c[1] != sz:
                 if c[0] is ZERO: return s.dflt(ZERO, ty)
-                raise Unsupported('load size mismatch obj %d off %d' % (ptr[0], off))
+                if isinstance(ty, IntT) and c[1] < sz:
+                    # a wide integer load over several narrower integer cells (clang merges adjacent bool/byte stores): little-endian concat
+                    parts = []; o2 = off
+                    while o2 < off + sz:
+                        cc = o['cells'].get(o2)
+                        if cc is None or isinstance(cc[0], (tuple, float)) or cc[0] is ZERO or (z3.is_expr(cc[0]) and z3.is_real(cc[0])): parts = None; break
+                        parts.append(cc); o2 += cc[1]
+                    if parts is not None and o2 == off + sz:
+                        if all(isinstance(p_[0], (int, bool)) and not z3.is_expr(p_[0]) for p_ in parts):
+                            r = 0; sh_ = 0
+                            for p_ in parts: r |= (int(p_[0]) & ((1 << (8 * p_[1])) - 1)) << sh_; sh_ += 8 * p_[1]
+                            return r & ((1 << ty.bits) - 1)
+                        bvs = [s.bv(p_[0] if not z3.is_bool(p_[0]) and not isinstance(p_[0], bool) else p_[0], 8 * p_[1]) for p_ in parts]
+                        r = z3.simplify(z3.Concat(*reversed(bvs))) if len(bvs) > 1 else bvs[0]
+                        if ty.bits < r.size(): r = z3.simplify(z3.Extract(ty.bits - 1, 0, r))
+                        return r
+                if isinstance(ty, IntT) and c[1] > sz and not isinstance(c[0], (tuple, float)) and c[0] is not ZERO and not (z3.is_expr(c[0]) and z3.is_real(c[0])):
+                    # narrow integer load from the low bytes of a wider integer cell
+                    if isinstance(c[0], (int, bool)) and not z3.is_expr(c[0]): return int(c[0]) & ((1 << ty.bits) - 1)
+                    return z3.simplify(z3.Extract(ty.bits - 1, 0, s.bv(c[0], 8 * c[1])))
+                raise Unsupported('load size mismatch obj %d off %d (cell %d bytes, load %d bytes)' % (ptr[0], off, c[1], sz))
             return s.retype(s.dflt(c[0], ty), ty)
         cands = [k for k, c in o['cells'].items() if c[1] == sz]
         if not cands: raise Unsupported('symbolic load from object without cells')
@@ -779,7 +817,7 @@ def run_function(E, fname, args, depth=0):
                     if op in ('sdiv', 'srem') and isint(b) and 0 < E.sgn(b, bits) and (b & (b - 1)) == 0 and E.solver is not None:
                         # signed division by a positive power of two of a provably non-negative value == unsigned (solver-checked, then z3 folds it to extract/shift)
                         if getattr(E, 'nn_fail', 0) < 4:
-                            E.solver.push(); E.solver.set('timeout', 150); E.solver.add(A < 0); r_ = zcheck(E.solver, 300); E.solver.pop(); E.solver.set('timeout', E.solver_timeout_ms)
+                            E.solver.push(); E.solver.set('timeout', 3000); E.solver.add(A < 0); r_ = zcheck(E.solver, 4000); E.solver.pop(); E.solver.set('timeout', E.solver_timeout_ms)
                             if r_ == z3.unsat: op = 'udiv' if op == 'sdiv' else 'urem'
                             elif r_ != z3.sat: E.nn_fail = getattr(E, 'nn_fail', 0) + 1     # helper query undecided: keep the signed operation
                     if op in ('udiv', 'urem', 'sdiv', 'srem') and not isint(b): E.obligations.append(('division by zero', B != 0))
